@@ -8,6 +8,10 @@ ROOT = os.path.dirname(os.path.dirname(os.path.abspath(__file__)))
 
 # id -> (technique, level text, level note, design ref)
 CHECKS = {
+    "C01": ("rapid-generated frames + exhaustive length grid; round trip and byte comparison with an independent table-driven wire model",
+            "Exploration: generated spec-valid frames of all 8 MTypes are encoded (binary, base64), compared byte-for-byte with the wire model, decoded again (join-accepts through encrypt/decrypt) and compared; the complete FOptsLen x FPort x FRMPayload-length grid of the four data MTypes is enumerated in both tiers. Field contents are sampled.",
+            "Trusted: harness/internal/ref wire model (frames, MAC-command table) written from LoRaWAN 1.0.3/1.1; structural conversions in harness/internal/gen.",
+            "DESIGN.md §4 C01"),
     "C11": (
         "exhaustive enumeration of all 2^24 NetIDs + rapid-generated (DevAddr, NetID) near-miss pairs and identifier representations against an arithmetic reference model",
         "Exploration, complete for the NetID dimension: every one of the 2^24 NetIDs is pushed through SetAddrPrefix/IsNetID/NwkID/Type/ID with four DevAddr patterns and compared with an arithmetic model of the addressing rule in both tiers; membership near misses and text/binary/SQL round trips (incl. wrong lengths 0..20) are generated with rapid. The DevAddr dimension and the representation values are sampled, not exhausted.",
